@@ -377,6 +377,34 @@ pub fn payload(max: usize) -> impl Strategy<Value = B> {
             }
             B(v)
         }),
+        // a payload that is nothing but one protocol look-alike repeated, starting at a random phase:
+        // wherever a buffer edge, a read boundary or a chunk boundary falls, a terminator-like byte
+        // sequence sits right in front of it
+        2 => (big2(max), lookalike_tile(), any::<u8>()).prop_map(move |(n, tile, phase)| {
+            let n = n.min(max);
+            let off = phase as usize % tile.len();
+            B((0..n).map(|i| tile[(i + off) % tile.len()]).collect())
+        }),
+    ]
+}
+
+fn big2(max: usize) -> impl Strategy<Value = usize> {
+    prop_oneof![
+        3 => (0..EDGE_SIZES.len()).prop_map(|i| EDGE_SIZES[i]),
+        2 => 300..max.max(301),
+        1 => 3..300usize,
+    ]
+}
+
+fn lookalike_tile() -> impl Strategy<Value = Vec<u8>> {
+    prop_oneof![
+        4 => Just(b"OK\n".to_vec()),
+        2 => Just(b"\nOK\n".to_vec()),
+        2 => Just(b"list_OK\n".to_vec()),
+        1 => Just(b"ACK [5@0] {} x\n".to_vec()),
+        1 => Just(b"binary: 3\n".to_vec()),
+        1 => Just(b"\n".to_vec()),
+        1 => Just(b"a: b\n".to_vec()),
     ]
 }
 
